@@ -273,11 +273,27 @@ Definition H_ORIGIN := B "origin".
 Definition H_HOST := B "host".
 Definition H_ACRM := B "access-control-request-method".
 
+(** the application's Prepare extensions bound to a path ([prepare_single]): key (the override URI's path,
+    else the request's path) and request to response + invocation log; [None] = nothing mounted there.
+    The marker handlers of the correspondence (harness/src/c13.rs): a later one for the same path wins. *)
+Definition app_handlers := bytes -> request -> option (fat * list bytes).
+Fixpoint find_marker (p : bytes) (hs : list (bytes * N)) (i : nat) (acc : option (nat * N)) : option (nat * N) :=
+  match hs with
+  | [] => acc
+  | (q, sp) :: r => find_marker p r (S i) (if beq q p then Some (i, sp) else acc)
+  end.
+Definition marker_app (hs : list (bytes * N)) : app_handlers := fun key r =>
+  match find_marker key hs O None with
+  | Some (i, sp) => Some (mkFat 200 [] (B "h" ++ dec (N.of_nat i) ++ B ":" ++ rq_path r) sp true, [B "h" ++ dec (N.of_nat i)])
+  | None => None
+  end.
+
 Section Pipe.
   Variable parse : bytes -> option uparts.
   Variable ipo : bytes -> option bytes -> option bytes -> bool.
   Variable conn_scheme : bytes.          (* "http" on a [PortDescriptor::unsecure], "https" with TLS *)
   Variable cfg : ccfg.
+  Variable app : app_handlers.           (* arbitrary in the theorems; [marker_app (cc_handlers cfg)] in the run *)
 
   (** the request URI of an HTTP/1 request is [scheme "://" Host-header target] (kvarn_async::read::request) *)
   Definition req_check (rules : ruleset allow_list) (r : request) : option grant :=
@@ -323,18 +339,12 @@ Section Pipe.
       the request's path; [/./cors_options] is [options_prepare] with the rules of [with_cors] (or the
       empty rule set of [with_disallow_cors]); no handler = 404. *)
   Definition options_rules : ruleset allow_list := if cc_with_cors cfg then cc_rules cfg else [].
-  Fixpoint find_marker (p : bytes) (hs : list (bytes * N)) (i : nat) (acc : option (nat * N)) : option (nat * N) :=
-    match hs with
-    | [] => acc
-    | (q, sp) :: r => find_marker p r (S i) (if beq q p then Some (i, sp) else acc)
-    end.
   Definition compute_ov (hs : unit) (r : request) (ov : option bytes) (ok : bool) : fat * unit * list bytes :=
     if negb ok then (error_fat (if range_part_ok r then 400 else 416) SP_NONE, hs, [])
     else
       let key := match ov with Some u => u | None => rq_path r end in
-      match find_marker key (cc_handlers cfg) O None with
-      | Some (i, sp) =>
-          (mkFat 200 [] (B "h" ++ dec (N.of_nat i) ++ B ":" ++ rq_path r) sp true, hs, [B "h" ++ dec (N.of_nat i)])
+      match app key r with
+      | Some (f, lg) => (f, hs, lg)
       | None =>
           if beq key OV_FAIL then (denied_fat, hs, [])
           else if beq key OV_OPTIONS then (options_fat (req_check options_rules r), hs, [])
@@ -441,9 +451,9 @@ Section Pipe.
   Definition key_internal (k : key) : bool :=
     match k with KPath p => starts_with (B "/./") p | KPathQuery s i => starts_with (B "/./") (firstn i s) end.
   Definition no_internal (c : cache) : Prop := forall k e, In (k, e) c -> key_internal k = false.
-  (** no application handler is mounted on an internal route *)
-  Definition handlers_external : Prop := forall p sp, In (p, sp) (cc_handlers cfg) -> starts_with (B "/./") p = false.
 End Pipe.
+(** no application handler is mounted on an internal route *)
+Definition app_external (app : app_handlers) : Prop := forall key r, starts_with (B "/./") key = true -> app key r = None.
 
 (** ---- xval interface ---- *)
 Definition d_method (x : xval) : option N := match x with XB m => cors_method_of_bytes m | _ => None end.
@@ -569,7 +579,7 @@ Definition run_conn_with (ipo : bytes -> option bytes -> option bytes -> bool) (
           match build_hist parse_uri rs with
           | Ok hist =>
               let cfg := mkCfgC (base =? 0) wc' (rs_build rs_add hist) hs (ca' && negb force_nocache) in
-              XL [XN 0; XL (map x_wire (run_conn parse_uri ipo CONN_SCHEME cfg ([], tt) 0 ops'))]
+              XL [XN 0; XL (map x_wire (run_conn parse_uri ipo CONN_SCHEME cfg (marker_app hs) ([], tt) 0 ops'))]
           | _ => XL [XN 96]
           end
       | _, _, _, _, _ => bad_input
@@ -585,6 +595,8 @@ Definition run_conn_nocache := run_conn_with is_part_of_origin true.
     *without* its Origin on a cache-less server with the same handlers ([None] = nothing prescribed). *)
 Definition strip_origin (r : request) : request :=
   mkReq (rq_method r) (rq_path r) (rq_query r) (filter (fun h => negb (beq (fst h) H_ORIGIN)) (rq_headers r)) (rq_addr r).
+(** the application's handlers do not look at the Origin header *)
+Definition app_ignores_origin (app : app_handlers) : Prop := forall key r, app key (strip_origin r) = app key r.
 (** what the code's check returns for a verdict *)
 Definition verdict_grant (v : verdict) : option grant :=
   match v with VSame => Some same_origin_grant | VAllow g => Some g | VRefuse => None end.
@@ -601,7 +613,8 @@ Definition spec_one (hist : list (bytes * allow_list)) (with_cors : bool) (cfg :
   let auth := match header H_HOST r with Some a => a | None => [] end in
   let v := cors_spec parse_uri lookup (rq_method r) CONN_SCHEME auth (rq_path r) (header H_ORIGIN r) in
   let plain := snd (respond parse_uri is_part_of_origin CONN_SCHEME
-                      (mkCfgC (cc_new cfg) (cc_with_cors cfg) (cc_rules cfg) (cc_handlers cfg) false) ([], tt) 0 (strip_origin r)) in
+                      (mkCfgC (cc_new cfg) (cc_with_cors cfg) (cc_rules cfg) (cc_handlers cfg) false)
+                      (marker_app (cc_handlers cfg)) ([], tt) 0 (strip_origin r)) in
   let acao := match header H_ORIGIN r with Some o => if with_cors then [XL [XB H_ACAO; XB o]] else [] | None => [] end in
   let head := rq_method r =? M_HEAD in
   if negb (sanitize_ok_fix r) then
